@@ -246,6 +246,7 @@ type simClient struct {
 // events
 
 type event struct {
+	deferred bool
 	at   int64
 	seq  uint64
 	kind string
@@ -312,6 +313,11 @@ type world struct {
 	loadErr string
 	notify     chan struct{}
 	appLogged  int
+	rpcStarted []rpcRec
+	viewAt     map[int][]string // publish step -> listing of the publisher's node at that instant
+	pingKnow   map[int64]pingKnowledge
+	knownAtStop map[int]map[string]bool // survivor -> session ids it listed when a node was stopped
+	stopAt      map[int]int64
 	rpcLogged  int
 	leaveAt    map[[2]int]int64 // (observer, dead) -> time the observer was told
 	lateGossip map[[2]int]bool  // (observer, dead): a datagram sent by dead reached observer after that
@@ -415,6 +421,9 @@ func (w *world) interceptor(src, dst int) grpc.UnaryClientInterceptor {
 		if sm, ok := req.(*api.ScheduleMessageRequest); ok && sm.Message != nil {
 			tag = tagOf(sm.Message.Payload)
 		}
+		w.mu.Lock()
+		w.rpcStarted = append(w.rpcStarted, rpcRec{Src: src, Dst: dst, Tag: tag, AtMs: w.nowMs()})
+		w.mu.Unlock()
 		rec := func(out string) {
 			w.mu.Lock()
 			w.rpcs = append(w.rpcs, rpcRec{Src: src, Dst: dst, Stamp: atomic.AddInt64(&w.stamp, 1), AtMs: w.nowMs(), Tag: tag, Outcome: out})
@@ -542,7 +551,7 @@ func (s seededReader) Read(p []byte) (int, error) {
 func newWorld(t *testing.T, c *Case, o *Outcome) *world {
 	w := &world{t: t, c: c, o: o, start: time.Now(), clients: map[int]*simClient{}, conns: map[[2]int]*grpc.ClientConn{},
 		blocked: map[[2]int]bool{}, rpcMode: map[[2]int]string{}, rpcN: map[[2]int]int{}, gossipN: map[[2]int]int{},
-		seed: c.Seed, stats: map[string]int64{}, leaveAt: map[[2]int]int64{}, lateGossip: map[[2]int]bool{}, notify: make(chan struct{}, 1)}
+		seed: c.Seed, stats: map[string]int64{}, leaveAt: map[[2]int]int64{}, lateGossip: map[[2]int]bool{}, notify: make(chan struct{}, 1), viewAt: map[int][]string{}, pingKnow: map[int64]pingKnowledge{}, knownAtStop: map[int]map[string]bool{}, stopAt: map[int]int64{}}
 	base := os.Getenv("VERIF_DATA")
 	if base == "" {
 		base = os.TempDir()
@@ -705,7 +714,7 @@ func (w *world) run(hooks profileHooks) {
 		if hooks.onStep != nil {
 			hooks.onStep(w)
 		}
-		if e.kind == "step" {
+		if e.kind == "step" && !e.deferred {
 			w.stepEnd[e.step] = w.nowMs() + e.extraDur()
 			if e.step+1 < len(c.Steps) {
 				w.push(&event{at: w.stepEnd[e.step] + c.Steps[e.step+1].At, kind: "step", step: e.step + 1})
@@ -787,6 +796,16 @@ func (w *world) applyStep(e *event, s *Step) {
 		if s.N < 0 || s.N >= len(w.nodes) || !w.nodes[s.N].alive {
 			return
 		}
+		if s.G && e.i < 200 {
+			// proviso of C12: the accepting node has already learned of the earlier session
+			if prev := w.latestByClientID(s.S, s.C); prev != nil && prev.sid != "" {
+				if _, err := w.nodes[s.N].dstate.SessionMetadatas().Get(prev.sid); err != nil {
+					e.deferred = true
+					w.push(&event{at: w.nowMs() + 50, kind: "step", step: e.step, i: e.i + 1})
+					return
+				}
+			}
+		}
 		if old := w.clients[s.C]; old != nil {
 			w.past = append(w.past, old)
 		}
@@ -806,6 +825,19 @@ func (w *world) applyStep(e *event, s *Step) {
 		n := w.nodes[s.N]
 		go n.cm.Setup(n.ctx, transport.Metadata{Name: "tcp", Channel: cl.conn, RemoteAddress: fmt.Sprintf("10.0.0.%d:1", s.C)})
 		w.send(cl, tCONNECT, encConnect(cl.opts), 0, "")
+	case "rawconnect":
+		if s.N < 0 || s.N >= len(w.nodes) || !w.nodes[s.N].alive {
+			return
+		}
+		if old := w.clients[s.C]; old != nil {
+			w.past = append(w.past, old)
+		}
+		cl := &simClient{idx: s.C, node: s.N, open: map[int]*rxExchange{}, downAt: -1, disconnAt: -1}
+		cl.conn = newSimConn(&w.stamp, w.start, w.notify)
+		cl.connectAt = w.nowMs()
+		w.clients[s.C] = cl
+		n := w.nodes[s.N]
+		go n.cm.Setup(n.ctx, transport.Metadata{Name: "tcp", Channel: cl.conn, RemoteAddress: fmt.Sprintf("10.0.0.%d:1", s.C)})
 	case "sub":
 		if cl := w.live(s.C); cl != nil {
 			w.send(cl, tSUBSCRIBE, encSubscribe(int(s.I), s.L, s.QL), int(s.I), strings.Join(s.L, ","))
@@ -824,6 +856,9 @@ func (w *world) applyStep(e *event, s *Step) {
 					payload[i] = byte('a' + i%26)
 				}
 			}
+			if w.c.knob("snapview", 0) == 1 {
+				w.viewAt[e.step] = listing(w.nodes[cl.node].dstate)
+			}
 			w.sendPub(cl, s.T, payload, s.Q, s.F, s.G, int(s.I))
 		}
 	case "pkt":
@@ -839,7 +874,22 @@ func (w *world) applyStep(e *event, s *Step) {
 				w.send(cl, tPUBCOMP, encAck(tPUBCOMP, int(s.I)), int(s.I), "")
 			case "pingreq":
 				cl.pingsSent++
-				w.send(cl, tPINGREQ, encSimple(tPINGREQ), 0, "")
+				know := pingKnowledge{}
+				var succ *simClient
+				for _, o := range w.clients {
+					if o != cl && o.opts.ClientID == cl.opts.ClientID && o.mount == cl.mount && o.connectAt > cl.connectAt && o.sid != "" && (succ == nil || o.connectAt < succ.connectAt) {
+						succ = o
+					}
+				}
+				if succ != nil {
+					host := w.nodes[cl.node]
+					_, err := host.dstate.SessionMetadatas().Get(succ.sid)
+					know.newKnown = err == nil
+					_, err = host.dstate.SessionMetadatas().Get(cl.sid)
+					know.oldLive = err == nil
+				}
+				st := w.send(cl, tPINGREQ, encSimple(tPINGREQ), 0, "")
+				w.pingKnow[st] = know
 			case "disconnect":
 				cl.disconnAt = w.nowMs()
 				w.send(cl, tDISCONNECT, encSimple(tDISCONNECT), 0, "")
@@ -878,7 +928,7 @@ func (w *world) applyStep(e *event, s *Step) {
 			}
 			cl.lastTxAt = w.nowMs()
 			w.mu.Lock()
-			w.obs = append(w.obs, Obs{Step: w.curStep, AtMs: w.nowMs(), Client: cl.idx, Epoch: cl.epoch, P: &mpkt{Type: 0, Payload: s.B}})
+			w.obs = append(w.obs, Obs{Step: w.curStep, AtMs: w.nowMs(), Stamp: atomic.AddInt64(&w.stamp, 1), Client: cl.idx, Epoch: cl.epoch, P: &mpkt{Type: 0, Payload: s.B}})
 			w.mu.Unlock()
 		}
 	case "ackplan":
@@ -936,12 +986,14 @@ func (w *world) live(c int) *simClient {
 	return cl
 }
 
-func (w *world) send(cl *simClient, typ int, b []byte, pid int, note string) {
+func (w *world) send(cl *simClient, typ int, b []byte, pid int, note string) int64 {
 	cl.conn.feed(b)
 	cl.lastTxAt = w.nowMs()
+	st := atomic.AddInt64(&w.stamp, 1)
 	w.mu.Lock()
-	w.obs = append(w.obs, Obs{Step: w.curStep, AtMs: w.nowMs(), Stamp: atomic.AddInt64(&w.stamp, 1), Client: cl.idx, Epoch: cl.epoch, P: &mpkt{Type: typ, Pid: pid, Topic: note}})
+	w.obs = append(w.obs, Obs{Step: w.curStep, AtMs: w.nowMs(), Stamp: st, Client: cl.idx, Epoch: cl.epoch, P: &mpkt{Type: typ, Pid: pid, Topic: note}})
 	w.mu.Unlock()
+	return st
 }
 
 func (w *world) sendPub(cl *simClient, topic string, payload []byte, qos int, retain, dup bool, pid int) {
@@ -1306,7 +1358,19 @@ func (w *world) stopNode(i int, fixedDelay int64) {
 	n := w.nodes[i]
 	n.alive = false
 	n.cancel()
+	w.stopAt[i] = w.nowMs()
 	w.statAdd("fault.node_stopped", 1)
+	for _, p := range w.nodes {
+		if p.alive {
+			m := map[string]bool{}
+			for _, sm := range p.dstate.SessionMetadatas().All() {
+				m[sm.SessionID] = true
+			}
+			w.knownAtStop[p.idx] = m
+		}
+	}
+	base := int64(1000 + w.keyed("leavebase", i).Intn(5000))
+	spread := w.c.knob("leave_spread_ms", 1200)
 	for _, cl := range w.clients {
 		if cl.node == i && cl.downAt < 0 {
 			cl.conn.Close() // the process is gone: its sockets are closed by the kernel
@@ -1317,7 +1381,7 @@ func (w *world) stopNode(i int, fixedDelay int64) {
 		if p.alive {
 			d := fixedDelay
 			if d <= 0 {
-				d = int64(1000 + w.keyed("leave", i, p.idx).Intn(7000))
+				d = base + int64(w.keyed("leave", i, p.idx).Intn(int(spread)+1))
 			}
 			w.push(&event{at: w.nowMs() + d, kind: "leave", i: p.idx, j: i})
 		}
@@ -1334,4 +1398,23 @@ func (w *world) sessionsOfClient(n *simNode, clientID string) []string {
 	}
 	sort.Strings(ids)
 	return ids
+}
+
+// latestByClientID: the most recent earlier connection (any client index) using this client id.
+func (w *world) latestByClientID(clientID string, except int) *simClient {
+	var best *simClient
+	consider := func(cl *simClient) {
+		if cl.opts.ClientID == clientID && (best == nil || cl.connectAt > best.connectAt) {
+			best = cl
+		}
+	}
+	for _, cl := range w.past {
+		consider(cl)
+	}
+	for id, cl := range w.clients {
+		if id != except {
+			consider(cl)
+		}
+	}
+	return best
 }
